@@ -13,13 +13,29 @@ package main
 //	resends     number of retransmissions: exactly 0 when Retry <= 0, within generous bounds of elapsed/Retry otherwise
 //	prompt      Exchange returned within 250 ms of the cancellation / deadline
 //	silent      nothing arrived at the peer after Exchange returned (ordering by a sentinel datagram, not by clocks)
-//	goroutines  no goroutine whose stack mentions radius.(*Client).Exchange is left 200 ms after the return
-//	fds         /proc/self/fd is back to its size before the call within 200 ms
+//	goroutines  200 ms after the return no goroutine whose stack mentions radius.(*Client).Exchange is left AND the
+//	            process has no more goroutines than before the call, the harness's own (counted one by one) excluded:
+//	            that also sees goroutines parked in other packages on behalf of the call (context.propagateCancel, …)
+//	fds         /proc/self/fd is back to its size before the call within 200 ms (a peer socket the scenario itself
+//	            closes meanwhile is subtracted from the baseline)
+//
+// Further dimensions:
+//
+//	peer nodial:<v>  the address cannot be dialled (v=0 "127.0.0.1" without a port, 1 port 99999, 2 unixgram path that does
+//	                 not exist, 3 unknown network): DialContext fails at once; a UDP listener of the harness stays up only to
+//	                 witness that nothing is sent anywhere it could see
+//	peer vanish      Client.Net = "unixgram"; the peer is a unixgram socket in a temporary directory that reads the first
+//	                 datagram and is then closed and unlinked: every retransmission FAILS (ECONNREFUSED / ENOTCONN) while the
+//	                 pending Read just blocks; only the context ends the call
+//	ctx std|wrap     (optional 13th field, default std) wrap: the context handed to Exchange is a user-defined type around
+//	                 the standard one (Deadline/Err/Value delegated, its OWN Done channel closed by a forwarding goroutine of
+//	                 the harness), so that context.WithCancel cannot use its internal fast path and parks a goroutine
 //
 // Everything that can be made event-driven is (cancellation "after the peer has received its j-th datagram",
 // replies "after the k-th retransmission"); the clauses that remain timing dependent (prompt, resends with
 // Retry > 0, goroutines, fds) are re-measured: a scenario in which one of them fails is run up to two more
-// times and the clause is reported as failed only if it fails in all three runs.
+// times and the clause is reported as failed only if it fails in all three runs.  The same goes for a WithTimeout
+// scenario in which the deadline passed before the request was written at all (c08obs.early).
 
 import (
 	"bytes"
@@ -27,9 +43,11 @@ import (
 	"errors"
 	"net"
 	"os"
+	"path/filepath"
 	"runtime"
 	"strings"
 	"sync"
+	"sync/atomic"
 	"time"
 
 	"layeh.com/radius"
@@ -46,7 +64,8 @@ type c08peerLog struct {
 	dgrams   [][]byte
 	times    []time.Time
 	from     *net.UDPAddr
-	sentinel int // number of datagrams received before the sentinel, -1 while not seen
+	sentinel int  // number of datagrams received before the sentinel, -1 while not seen
+	vanished bool // (vanish) the peer has taken its one datagram and is closed and unlinked
 	notify   chan struct{}
 }
 
@@ -120,12 +139,65 @@ func c08CountFDs() int {
 	return len(es)
 }
 
+// c08Live counts the goroutines the harness itself has started and that have not finished: the goroutine census
+// compares runtime.NumGoroutine() minus this number before and after the call.  (A harness goroutine that has
+// decremented the counter but not quite exited yet makes the difference too large for an instant; the census
+// polls, and only an excess that persists for the whole settle period counts.)
+var c08Live atomic.Int64
+
+func c08Go(f func()) {
+	c08Live.Add(1)
+	go func() {
+		defer c08Live.Add(-1)
+		f()
+	}()
+}
+
+func c08ForeignGoroutines() int { return runtime.NumGoroutine() - int(c08Live.Load()) }
+
+// c08wrapCtx is a context of a type the context package does not know: everything is delegated to the standard
+// context inside except Done, which is the wrapper's own channel, closed by a forwarding goroutine (of the
+// harness, counted in c08Live) when the inner context is done.  The forwarder ends when the inner context is
+// cancelled, which runC08 always does on its way out.
+type c08wrapCtx struct {
+	inner context.Context
+	done  chan struct{}
+}
+
+func c08Wrap(inner context.Context) *c08wrapCtx {
+	w := &c08wrapCtx{inner: inner, done: make(chan struct{})}
+	if inner.Err() != nil {
+		close(w.done) // already done: no goroutine, Done is closed before Exchange is called
+		return w
+	}
+	c08Go(func() {
+		<-inner.Done()
+		close(w.done)
+	})
+	return w
+}
+
+func (w *c08wrapCtx) Deadline() (time.Time, bool) { return w.inner.Deadline() }
+func (w *c08wrapCtx) Done() <-chan struct{}       { return w.done }
+func (w *c08wrapCtx) Err() error {
+	// like every context: Err is non-nil only once Done is closed
+	select {
+	case <-w.done:
+		return w.inner.Err()
+	default:
+		return nil
+	}
+}
+func (w *c08wrapCtx) Value(k any) any { return w.inner.Value(k) }
+
 type c08scenario struct {
 	req            *radius.Packet
 	retry          time.Duration
 	maxErr         int
 	skip           bool
-	peer           string // silent | closed | flood | late
+	peer           string // silent | closed | flood | late | nodial | vanish
+	variant        int    // nodial: which undialable address
+	wrap           bool   // the context is a c08wrapCtx
 	k, g, m        int
 	cancel         string // never | pre | predeadline | at | deadline
 	j              int
@@ -135,6 +207,9 @@ type c08scenario struct {
 
 type c08obs struct {
 	class, pkt, first, verbatim, resends, prompt, silent, goroutines, fds string
+	// early: a context.WithTimeout scenario whose deadline passed before the request was even written (a machine busy
+	// enough to stall the call for the whole timeout): not what the scenario is about, it is re-run like a failed timing clause
+	early bool
 }
 
 func (o c08obs) String() string {
@@ -144,7 +219,7 @@ func (o c08obs) String() string {
 
 // timingOK: none of the clauses that depend on scheduling failed.
 func (o c08obs) timingOK() bool {
-	return o.prompt != "false" && o.resends != "toofew" && o.resends != "toomany" && o.goroutines != "false" && o.fds != "false"
+	return !o.early && o.prompt != "false" && o.resends != "toofew" && o.resends != "toomany" && o.goroutines != "false" && o.fds != "false"
 }
 
 func c08Class(err error) string {
@@ -177,41 +252,103 @@ func c08Class(err error) string {
 	return "parse-error"
 }
 
+// the addresses of the nodial peer: {Client.Net, addr}; an empty addr stands for the harness's own listener
+var c08Nodial = [][2]string{
+	{"", "127.0.0.1"},                               // missing port
+	{"", "127.0.0.1:99999"},                         // invalid port
+	{"unixgram", "/proc/vh-c08-nonexistent/p.sock"}, // connect: no such file or directory
+	{"vh-no-such-network", ""},                      // unknown network
+}
+
+// vanishReader is the peer of the vanish scenario: it takes the first datagram, then the socket is closed and its
+// path unlinked, so that whatever the client writes from then on fails while the client's Read keeps blocking.
+func (l *c08peerLog) vanishReader(conn *net.UnixConn, path string, fdAdjust *atomic.Int64) {
+	buf := make([]byte, 8192)
+	n, _, err := conn.ReadFromUnix(buf)
+	if err != nil {
+		return // closed by runC08 on its way out: the client never wrote
+	}
+	now := time.Now()
+	conn.Close()
+	os.Remove(path)
+	fdAdjust.Add(-1)
+	l.mu.Lock()
+	l.dgrams = append(l.dgrams, append([]byte{}, buf[:n]...))
+	l.times = append(l.times, now)
+	l.vanished = true
+	l.mu.Unlock()
+	select {
+	case l.notify <- struct{}{}:
+	default:
+	}
+}
+
 func runC08(sc *c08scenario) c08obs {
 	obs := c08obs{pkt: "-", first: "-", verbatim: "na", resends: "na", prompt: "na", silent: "na", goroutines: "na", fds: "na"}
 	_, encErr := sc.req.Encode()
 
 	// peer and sentinel sockets (part of the descriptor baseline)
-	var peer *net.UDPConn
-	var addr string
-	l, err := net.ListenUDP("udp4", &net.UDPAddr{IP: net.IPv4(127, 0, 0, 1)})
-	if err != nil {
-		obs.class = "HARNESS-listen"
-		return obs
-	}
-	addr = l.LocalAddr().String()
-	if sc.peer == "closed" {
-		l.Close()
-	} else {
-		peer = l
-		defer peer.Close()
-	}
 	log := &c08peerLog{sentinel: -1, notify: make(chan struct{}, 1)}
+	var peer *net.UDPConn
 	var sentinelConn *net.UDPConn
-	if peer != nil {
-		go log.reader(peer)
-		sentinelConn, err = net.DialUDP("udp4", nil, peer.LocalAddr().(*net.UDPAddr))
+	var probe *net.UnixConn
+	var network, addr string
+	var fdAdjust atomic.Int64 // sockets of the baseline that the scenario itself closes during the call (negative)
+	if sc.peer == "vanish" {
+		dir, err := os.MkdirTemp("", "vh-c08-")
 		if err != nil {
+			obs.class = "HARNESS-tmpdir"
+			return obs
+		}
+		defer os.RemoveAll(dir)
+		path := filepath.Join(dir, "p.sock")
+		ua := &net.UnixAddr{Name: path, Net: "unixgram"}
+		ul, err := net.ListenUnixgram("unixgram", ua)
+		if err != nil {
+			obs.class = "HARNESS-listen"
+			return obs
+		}
+		defer ul.Close()
+		// a second client of the same peer: after the call it tells whether writes to the vanished peer do fail
+		if probe, err = net.DialUnix("unixgram", nil, ua); err != nil {
 			obs.class = "HARNESS-dial"
 			return obs
 		}
-		defer sentinelConn.Close()
+		defer probe.Close()
+		network, addr = "unixgram", path
+		c08Go(func() { log.vanishReader(ul, path, &fdAdjust) })
+	} else {
+		l, err := net.ListenUDP("udp4", &net.UDPAddr{IP: net.IPv4(127, 0, 0, 1)})
+		if err != nil {
+			obs.class = "HARNESS-listen"
+			return obs
+		}
+		addr = l.LocalAddr().String()
+		if sc.peer == "closed" {
+			l.Close()
+		} else {
+			peer = l
+			defer peer.Close()
+		}
+		if peer != nil {
+			c08Go(func() { log.reader(peer) })
+			sentinelConn, err = net.DialUDP("udp4", nil, peer.LocalAddr().(*net.UDPAddr))
+			if err != nil {
+				obs.class = "HARNESS-dial"
+				return obs
+			}
+			defer sentinelConn.Close()
+		}
+		if sc.peer == "nodial" {
+			nd := c08Nodial[sc.variant]
+			network = nd[0]
+			if nd[1] != "" {
+				addr = nd[1]
+			}
+		}
 	}
-	runtime.Gosched()
-	baseG := c08ExchangeGoroutines()
-	baseFD := c08CountFDs()
 
-	client := &radius.Client{Retry: sc.retry, MaxPacketErrors: sc.maxErr, InsecureSkipVerify: sc.skip}
+	client := &radius.Client{Net: network, Retry: sc.retry, MaxPacketErrors: sc.maxErr, InsecureSkipVerify: sc.skip}
 	var ctx context.Context
 	var cancel context.CancelFunc
 	switch sc.cancel {
@@ -222,10 +359,23 @@ func runC08(sc *c08scenario) c08obs {
 	default:
 		ctx, cancel = context.WithCancel(context.Background())
 	}
-	defer cancel()
+	defer cancel() // (also ends the forwarding goroutine of a wrapped context)
 	if sc.cancel == "pre" {
 		cancel()
 	}
+	var cancelTime time.Time
+	if dl, ok := ctx.Deadline(); ok && sc.cancel == "deadline" {
+		cancelTime = dl
+	}
+	if sc.wrap {
+		ctx = c08Wrap(ctx)
+	}
+
+	// baselines: taken with every goroutine and descriptor of the harness in place
+	runtime.Gosched()
+	baseG := c08ExchangeGoroutines()
+	baseAll := c08ForeignGoroutines()
+	baseFD := c08CountFDs()
 
 	type res struct {
 		p   *radius.Packet
@@ -235,24 +385,20 @@ func runC08(sc *c08scenario) c08obs {
 	done := make(chan res, 1)
 	stop := make(chan struct{}) // closed when Exchange has returned (or was given up)
 	var cancelMu sync.Mutex
-	var cancelTime time.Time
 	start := time.Now()
-	if dl, ok := ctx.Deadline(); ok && sc.cancel == "deadline" {
-		cancelTime = dl
-	}
 	if sc.cancel == "pre" || sc.cancel == "predeadline" {
 		cancelTime = start
 	}
-	go func() {
+	c08Go(func() {
 		p, err := client.Exchange(ctx, sc.req, addr)
 		done <- res{p, err, time.Now()}
-	}()
+	})
 
 	// the peer's script
 	if peer != nil {
 		switch sc.peer {
 		case "late":
-			go func() {
+			c08Go(func() {
 				if !log.waitFor(func() bool { return len(log.dgrams) >= sc.k+1 }, stop, 6*time.Second) {
 					return
 				}
@@ -268,9 +414,9 @@ func runC08(sc *c08scenario) c08obs {
 						peer.WriteToUDP(sc.reply, to)
 					}
 				}
-			}()
+			})
 		case "flood":
-			go func() {
+			c08Go(func() {
 				if !log.waitFor(func() bool { return len(log.dgrams) >= 1 }, stop, 6*time.Second) {
 					return
 				}
@@ -284,26 +430,31 @@ func runC08(sc *c08scenario) c08obs {
 					peer.WriteToUDP(sc.garbage, to)
 					time.Sleep(200 * time.Microsecond)
 				}
-			}()
+			})
 		}
-		if sc.cancel == "at" {
-			go func() {
-				if !log.waitFor(func() bool { return len(log.dgrams) >= sc.j }, stop, 6*time.Second) {
+	}
+	if sc.cancel == "at" && (peer != nil || sc.peer == "vanish") {
+		c08Go(func() {
+			// "after the peer received its j-th datagram"; the vanishing peer receives one, and is gone by then
+			pred := func() bool { return len(log.dgrams) >= sc.j }
+			if sc.peer == "vanish" {
+				pred = func() bool { return log.vanished }
+			}
+			if !log.waitFor(pred, stop, 6*time.Second) {
+				return
+			}
+			if sc.delay > 0 {
+				select {
+				case <-time.After(sc.delay):
+				case <-stop:
 					return
 				}
-				if sc.delay > 0 {
-					select {
-					case <-time.After(sc.delay):
-					case <-stop:
-						return
-					}
-				}
-				cancelMu.Lock()
-				cancelTime = time.Now()
-				cancelMu.Unlock()
-				cancel()
-			}()
-		}
+			}
+			cancelMu.Lock()
+			cancelTime = time.Now()
+			cancelMu.Unlock()
+			cancel()
+		})
 	}
 
 	// wait for the return (watchdog)
@@ -336,15 +487,21 @@ func runC08(sc *c08scenario) c08obs {
 		obs.class = "nil-nil"
 	}
 
+	if sc.cancel == "deadline" && obs.class == "ctx-deadline" && encErr == nil && sc.peer != "closed" && sc.peer != "nodial" {
+		log.mu.Lock()
+		obs.early = len(log.dgrams) == 0
+		log.mu.Unlock()
+	}
+
 	// census: goroutines and descriptors back to the baseline within 200 ms
 	gOK, fdOK := false, false
 	censusEnd := r.at.Add(200 * time.Millisecond)
 	for {
-		if !gOK && c08ExchangeGoroutines() <= baseG {
+		if !gOK && c08ExchangeGoroutines() <= baseG && c08ForeignGoroutines() <= baseAll {
 			gOK = true
 		}
 		if !fdOK {
-			if n := c08CountFDs(); n >= 0 && n <= baseFD {
+			if n := c08CountFDs(); n >= 0 && n <= baseFD+int(fdAdjust.Load()) {
 				fdOK = true
 			}
 		}
@@ -355,6 +512,11 @@ func runC08(sc *c08scenario) c08obs {
 	}
 	obs.goroutines = boolStr(gOK)
 	obs.fds = boolStr(fdOK)
+	if !gOK && os.Getenv("VH_TRACE") != "" {
+		buf := make([]byte, 1<<20)
+		os.Stderr.WriteString("c08 trace: goroutines: exchange " + itoa(c08ExchangeGoroutines()) + "/" + itoa(baseG) + " all " +
+			itoa(c08ForeignGoroutines()) + "/" + itoa(baseAll) + "\n" + string(buf[:runtime.Stack(buf, true)]) + "\n")
+	}
 
 	// promptness
 	cancelMu.Lock()
@@ -368,6 +530,26 @@ func runC08(sc *c08scenario) c08obs {
 		}
 	}
 
+	if sc.peer == "vanish" {
+		// what the peer took before it went away; nothing can be seen of the retransmissions (they fail)
+		log.mu.Lock()
+		vanished := log.vanished
+		if len(log.dgrams) > 0 {
+			obs.first = hx(log.dgrams[0])
+		}
+		log.mu.Unlock()
+		// the premise of the scenario: writing to the vanished peer fails
+		if vanished {
+			if _, err := probe.Write([]byte{0}); err == nil {
+				obs.class = "HARNESS-vanished-peer-still-writable"
+			}
+		}
+		if os.Getenv("VH_TRACE") != "" {
+			os.Stderr.WriteString("c08 trace: " + sc.peer + " " + sc.cancel + " retry=" + sc.retry.String() +
+				" elapsed=" + r.at.Sub(start).String() + " sinceCancel=" + r.at.Sub(ct).String() + " " + obs.String() + "\n")
+		}
+		return obs
+	}
 	if peer == nil {
 		if encErr == nil && sc.cancel != "pre" && sc.cancel != "predeadline" {
 			obs.first = "na" // something was written, but nobody is there to see it
@@ -460,10 +642,20 @@ func c08Watchdog(sc *c08scenario) time.Duration {
 }
 
 func parseC08(args []string) *c08scenario {
-	if len(args) != 12 {
+	// (the 13th field, the flavour of the context, is optional: case lines written before it existed have 12)
+	if len(args) != 12 && len(args) != 13 {
 		panic("bad scenario arity")
 	}
 	sc := &c08scenario{}
+	if len(args) == 13 {
+		switch args[12] {
+		case "std":
+		case "wrap":
+			sc.wrap = true
+		default:
+			panic("bad context flavour")
+		}
+	}
 	sc.req = &radius.Packet{Code: radius.Code(atoi(args[0])), Identifier: byte(atoi(args[1])), Secret: unhx(args[3])}
 	a := unhx(args[2])
 	if len(a) != 16 || atoi(args[1]) < 0 || atoi(args[1]) > 255 {
@@ -480,7 +672,12 @@ func parseC08(args []string) *c08scenario {
 	switch {
 	case sc.peer == "late" && len(pf) == 4:
 		sc.k, sc.g, sc.m = atoi(pf[1]), atoi(pf[2]), atoi(pf[3])
-	case (sc.peer == "silent" || sc.peer == "closed" || sc.peer == "flood") && len(pf) == 1:
+	case sc.peer == "nodial" && len(pf) == 2:
+		sc.variant = atoi(pf[1])
+		if sc.variant < 0 || sc.variant >= len(c08Nodial) {
+			panic("bad peer")
+		}
+	case (sc.peer == "silent" || sc.peer == "closed" || sc.peer == "flood" || sc.peer == "vanish") && len(pf) == 1:
 	default:
 		panic("bad peer")
 	}
@@ -518,9 +715,16 @@ func c08Ends(sc *c08scenario) bool {
 		if sc.cancel == "deadline" && sc.peer == "late" && sc.k > 0 && ticking {
 			return false
 		}
+		if sc.cancel == "deadline" && sc.peer == "nodial" && sc.delay < time.Second {
+			return false // the dial fails at once; a deadline that close would race with it
+		}
 		return true
 	}
 	switch sc.peer {
+	case "nodial":
+		return sc.cancel == "never" // no datagram ever reaches a peer: there is no "after the j-th"
+	case "vanish":
+		return sc.cancel == "at" && sc.j == 1 // the peer takes one datagram and is gone
 	case "closed":
 		return true
 	case "silent":
@@ -601,8 +805,41 @@ func genC08(g *Gen, tier string, emit func(op string, args ...string)) {
 				skip = g.Chance(1, 6)
 			}
 		}
+		// the flavour of the context: half of the scenarios hand Exchange a user-defined context type
+		flavour := g.pickStr("std", "wrap")
+		for _, o := range opts {
+			if o == "std" || o == "wrap" {
+				flavour = o
+			}
+		}
 		emit("scenario", itoa(reqCode), itoa(int(req.Identifier)), hx(auth), hx(secret), showAVPs(reqAttrs),
-			itoa(retry), itoa(maxErr), map[bool]string{false: "0", true: "1"}[skip], peer, cancel, hx(reply), hx(garbage))
+			itoa(retry), itoa(maxErr), map[bool]string{false: "0", true: "1"}[skip], peer, cancel, hx(reply), hx(garbage), flavour)
+	}
+	// an address that cannot be dialled: the dial error (or the context's, if it was done already) comes back, nothing
+	// is sent, nothing is left - every undialable address under both context flavours, live and done contexts
+	for round := 0; round < (rounds+2)/3; round++ {
+		for v := range c08Nodial {
+			for _, fl := range []string{"wrap", "std"} {
+				retry := retries[(round+v)%len(retries)]
+				one(retry, budgets[(round+v)%len(budgets)], "nodial:"+itoa(v), g.pickStr("never", "never", "deadline:"+itoa(g.Pick(1000, 1500, 2000))), fl)
+				if (round+v)%2 == 0 == (fl == "wrap") {
+					one(retry, 0, "nodial:"+itoa(v), g.pickStr("pre", "predeadline"), fl)
+				}
+			}
+		}
+	}
+	one(20, 0, "nodial:0", "never", "badcode")
+	// retransmissions that FAIL while the Read stays pending (unixgram peer that is closed and unlinked after the first
+	// datagram): only the context ends the call, and it must, several failed retransmissions later
+	for round := 0; round < rounds; round++ {
+		retry := g.Pick(5, 8, 12, 20)
+		one(retry, budgets[round%len(budgets)], "vanish", "at:1:"+itoa(3*retry+g.Pick(25, 40, 70)))
+		one(retry, budgets[(round+1)%len(budgets)], "vanish", "deadline:"+itoa(4*retry+g.Pick(40, 60, 90)))
+		if round%3 == 0 {
+			// no retransmissions at all / a cancellation before the first one
+			one(g.Pick(-1, 0, 3600000), 0, "vanish", "at:1:"+itoa(g.Pick(0, 30)))
+			one(20, 0, "vanish", g.pickStr("pre", "predeadline", "at:1:0"))
+		}
 	}
 	// long waits with Retry <= 0: a fallback ticker of up to a second would show
 	for i := 0; i < rounds/3; i++ {
